@@ -58,7 +58,18 @@ typedef struct { long tid, loc, kind, val; } ev_t;
 static ev_t* trace; static long ntrace, captrace;
 long rt_stat_steps, rt_stat_cas_fail;
 
+/* value bias: the values of the counters at `loc` are reported minus `bias` (rt_bias).  Used to run a structure whose
+ * counters start near a power-of-two boundary against a model whose counters start small: the model is invariant under
+ * a shift of its counters by a multiple of the structure's size, the implementation must be too. */
+static long bias_loc[8], bias_val[8]; static int nbias;
+void rt_bias(long loc, long bias) { if (nbias < 8) { bias_loc[nbias] = loc; bias_val[nbias++] = bias; } }
+static inline long debias(long loc, long kind, long val) {
+  if (kind / 10 == K_EV || kind / 10 == K_RET) return val;
+  for (int i = 0; i < nbias; i++) if (bias_loc[i] == loc) return val - bias_val[i];
+  return val;
+}
 static long push_ev(long tid, long loc, long kind, long val) {
+  if (nbias) val = debias(loc, kind, val);
   if (ntrace == captrace) {
     captrace = captrace ? captrace * 2 : 4096;
     trace = realloc(trace, captrace * sizeof(ev_t));
@@ -133,7 +144,7 @@ static void flush_pending(int t) {
   if (pendw[t].addr) {
     uint64_t v = rd(pendw[t].addr, pendw[t].size);
     if (pendw[t].size == 4) v = (uint64_t)(int64_t)(int32_t)v;
-    trace[pendw[t].slot].val = rt_canon(v);
+    trace[pendw[t].slot].val = debias(trace[pendw[t].slot].loc, trace[pendw[t].slot].kind, rt_canon(v));
     pendw[t].addr = NULL;
   }
 }
